@@ -229,8 +229,15 @@ func parseBody(r io.Reader) (uint64, [][]byte, []byte, error) {
 		klog.Infof("read sizeline: %v", err)
 		return 0, nil, nil, err
 	}
-	var size uint64
-	if n, err := fmt.Sscanf(string(sizeLine), "old %d", &size); err != nil || n != 1 {
+	// The line must be exactly "old <decimal size>": Sscanf would also accept
+	// trailing garbage ("old 5junk"), extra spaces and other bases ("old 0x5" as 0).
+	sizeStr, ok := strings.CutPrefix(string(sizeLine), "old ")
+	if !ok {
+		klog.Infof("scan sizeline: missing \"old \" prefix")
+		return 0, nil, nil, fmt.Errorf("malformed old size line %q", sizeLine)
+	}
+	size, err := strconv.ParseUint(sizeStr, 10, 64)
+	if err != nil {
 		klog.Infof("scan sizeline: %v", err)
 		return 0, nil, nil, err
 	}
